@@ -98,6 +98,10 @@ func (n *Node) validatePath() error {
 	if strings.ContainsAny(n.name, invalidChars) {
 		return fmt.Errorf("invalid node name: %s", n.name)
 	}
+	// "." and ".." below a root are lexically resolved by path.Join, so the joined path would look valid.
+	if !n.isRoot() && (n.name == "." || n.name == "..") {
+		return fmt.Errorf("invalid node name: %s", n.name)
+	}
 	if !fs.ValidPath(n.path()) {
 		return fmt.Errorf("invalid path: %s", n.path())
 	}
